@@ -1,0 +1,339 @@
+//! Verification hooks (compiled only with `--cfg wac_verif`).
+//!
+//! Add-only instrumentation used by the model-based verification harness:
+//! a JSON snapshot of the graph's internal bookkeeping, an internal
+//! invariant report, and a thread-local event sink.
+
+use super::*;
+use std::cell::RefCell;
+
+thread_local! {
+    static SINK: RefCell<Option<Vec<String>>> = const { RefCell::new(None) };
+}
+
+/// Starts recording events on the current thread.
+pub fn start() {
+    SINK.with(|s| *s.borrow_mut() = Some(Vec::new()));
+}
+
+/// Stops recording and returns the recorded events.
+pub fn take() -> Vec<String> {
+    SINK.with(|s| s.borrow_mut().take().unwrap_or_default())
+}
+
+/// Returns whether the sink is recording.
+pub fn enabled() -> bool {
+    SINK.with(|s| s.borrow().is_some())
+}
+
+/// Records an event (a JSON object) if the sink is recording.
+pub fn emit(event: String) {
+    SINK.with(|s| {
+        if let Some(v) = s.borrow_mut().as_mut() {
+            v.push(event);
+        }
+    });
+}
+
+/// Escapes a string as a JSON string literal.
+pub fn js(s: &str) -> String {
+    let mut out = String::with_capacity(s.len() + 2);
+    out.push('"');
+    for c in s.chars() {
+        match c {
+            '"' => out.push_str("\\\""),
+            '\\' => out.push_str("\\\\"),
+            '\n' => out.push_str("\\n"),
+            '\r' => out.push_str("\\r"),
+            '\t' => out.push_str("\\t"),
+            c if (c as u32) < 0x20 => write!(&mut out, "\\u{:04x}", c as u32).unwrap(),
+            c => out.push(c),
+        }
+    }
+    out.push('"');
+    out
+}
+
+fn pkg_json(p: Option<PackageId>) -> String {
+    match p {
+        Some(p) => format!("[{},{}]", p.index, p.generation),
+        None => "null".to_string(),
+    }
+}
+
+impl PackageId {
+    /// The slot index and generation of the identifier.
+    pub fn verif_parts(&self) -> (usize, usize) {
+        (self.index, self.generation)
+    }
+}
+
+impl NodeId {
+    /// The underlying node index.
+    pub fn verif_index(&self) -> usize {
+        self.0.index()
+    }
+}
+
+impl CompositionGraph {
+    /// Returns a JSON snapshot of the internal bookkeeping of the graph.
+    pub fn verif_snapshot(&self) -> String {
+        let mut out = String::from("{\"nodes\":[");
+        let mut first = true;
+        for i in self.graph.node_indices() {
+            let n = &self.graph[i];
+            if !first {
+                out.push(',');
+            }
+            first = false;
+            let (kind, sat) = match &n.kind {
+                NodeKind::Definition => ("def", None),
+                NodeKind::Import(_) => ("imp", None),
+                NodeKind::Instantiation(s) => {
+                    let mut v: Vec<_> = s.iter().copied().collect();
+                    v.sort();
+                    ("inst", Some(v))
+                }
+                NodeKind::Alias => ("alias", None),
+            };
+            write!(
+                &mut out,
+                "{{\"id\":{},\"kind\":\"{}\",\"pkg\":{},\"name\":{},\"export\":{},\"import\":{},\"sat\":{}}}",
+                i.index(),
+                kind,
+                pkg_json(n.package),
+                n.name.as_deref().map(js).unwrap_or_else(|| "null".into()),
+                n.export.as_deref().map(js).unwrap_or_else(|| "null".into()),
+                n.import_name().map(js).unwrap_or_else(|| "null".into()),
+                match sat {
+                    Some(v) => format!(
+                        "[{}]",
+                        v.iter().map(|x| x.to_string()).collect::<Vec<_>>().join(",")
+                    ),
+                    None => "null".into(),
+                }
+            )
+            .unwrap();
+        }
+        out.push_str("],\"edges\":[");
+        let mut first = true;
+        for e in self.graph.edge_indices() {
+            let (s, t) = self.graph.edge_endpoints(e).unwrap();
+            let (ty, i) = match &self.graph[e] {
+                Edge::Alias(i) => ("alias", *i as i64),
+                Edge::Argument(i) => ("arg", *i as i64),
+                Edge::Dependency => ("dep", -1),
+            };
+            if !first {
+                out.push(',');
+            }
+            first = false;
+            write!(
+                &mut out,
+                "{{\"t\":\"{}\",\"src\":{},\"dst\":{},\"i\":{}}}",
+                ty,
+                s.index(),
+                t.index(),
+                i
+            )
+            .unwrap();
+        }
+        out.push_str("],\"imports\":[");
+        let mut v: Vec<_> = self.imports.iter().collect();
+        v.sort();
+        out.push_str(
+            &v.iter()
+                .map(|(k, n)| format!("[{},{}]", js(k), n.index()))
+                .collect::<Vec<_>>()
+                .join(","),
+        );
+        out.push_str("],\"exports\":[");
+        out.push_str(
+            &self
+                .exports
+                .iter()
+                .map(|(k, n)| format!("[{},{}]", js(k), n.index()))
+                .collect::<Vec<_>>()
+                .join(","),
+        );
+        out.push_str("],\"defined\":[");
+        let mut v: Vec<_> = self.defined.values().map(|n| n.index()).collect();
+        v.sort();
+        out.push_str(
+            &v.iter()
+                .map(|x| x.to_string())
+                .collect::<Vec<_>>()
+                .join(","),
+        );
+        out.push_str("],\"packages\":[");
+        out.push_str(
+            &self
+                .packages
+                .iter()
+                .enumerate()
+                .map(|(i, p)| {
+                    format!(
+                        "{{\"index\":{},\"gen\":{},\"key\":{}}}",
+                        i,
+                        p.generation,
+                        p.package
+                            .as_ref()
+                            .map(|p| js(&p.key().to_string()))
+                            .unwrap_or_else(|| "null".into())
+                    )
+                })
+                .collect::<Vec<_>>()
+                .join(","),
+        );
+        out.push_str("],\"free\":[");
+        out.push_str(
+            &self
+                .free_packages
+                .iter()
+                .map(|x| x.to_string())
+                .collect::<Vec<_>>()
+                .join(","),
+        );
+        out.push_str("],\"package_map\":[");
+        let mut v: Vec<_> = self
+            .package_map
+            .iter()
+            .map(|(k, id)| (k.to_string(), *id))
+            .collect();
+        v.sort();
+        out.push_str(
+            &v.iter()
+                .map(|(k, id)| format!("[{},{},{}]", js(k), id.index, id.generation))
+                .collect::<Vec<_>>()
+                .join(","),
+        );
+        write!(&mut out, "],\"cache\":{}}}", self.type_check_cache.len()).unwrap();
+        out
+    }
+
+    /// Returns the list of violated internal invariants (empty when consistent).
+    pub fn verif_invariants(&self) -> Vec<String> {
+        let mut bad = Vec::new();
+        let live_pkg = |p: PackageId| {
+            self.packages
+                .get(p.index)
+                .map(|e| e.generation == p.generation && e.package.is_some())
+                .unwrap_or(false)
+        };
+        for i in self.graph.node_indices() {
+            let n = &self.graph[i];
+            let id = i.index();
+            if let Some(p) = n.package {
+                if !live_pkg(p) {
+                    bad.push(format!("node {id}: package id is not live"));
+                    continue;
+                }
+            }
+            match &n.kind {
+                NodeKind::Instantiation(sat) => {
+                    let mut incoming = HashSet::new();
+                    for e in self.graph.edges_directed(i, Direction::Incoming) {
+                        match e.weight() {
+                            Edge::Argument(a) => {
+                                if !incoming.insert(*a) {
+                                    bad.push(format!(
+                                        "node {id}: argument {a} has two incoming edges"
+                                    ));
+                                }
+                            }
+                            _ => bad.push(format!(
+                                "node {id}: instantiation has a non-argument incoming edge"
+                            )),
+                        }
+                    }
+                    if &incoming != sat {
+                        bad.push(format!(
+                            "node {id}: satisfied set differs from incoming argument edges"
+                        ));
+                    }
+                    match n.package {
+                        None => bad.push(format!("node {id}: instantiation without package")),
+                        Some(p) => {
+                            let pkg = self.packages[p.index].package.as_ref().unwrap();
+                            let count = self.types[pkg.ty()].imports.len();
+                            if incoming.iter().any(|a| *a >= count) {
+                                bad.push(format!("node {id}: argument index out of range"));
+                            }
+                        }
+                    }
+                }
+                NodeKind::Alias => {
+                    let sources: Vec<_> = self
+                        .graph
+                        .edges_directed(i, Direction::Incoming)
+                        .filter(|e| matches!(e.weight(), Edge::Alias(_)))
+                        .map(|e| e.source())
+                        .collect();
+                    if sources.len() != 1 {
+                        bad.push(format!(
+                            "node {id}: alias node has {} alias edges",
+                            sources.len()
+                        ));
+                    } else if !matches!(self.graph[sources[0]].item_kind, ItemKind::Instance(_)) {
+                        bad.push(format!("node {id}: alias source is not an instance"));
+                    }
+                }
+                NodeKind::Import(name) => {
+                    if self.imports.get(name) != Some(&i) {
+                        bad.push(format!("node {id}: import name not in the imports map"));
+                    }
+                }
+                NodeKind::Definition => {
+                    if self.defined.get(&n.item_kind.ty()) != Some(&i) {
+                        bad.push(format!("node {id}: definition not in the defined map"));
+                    }
+                    if n.export.is_none() {
+                        bad.push(format!("node {id}: definition without export name"));
+                    }
+                }
+            }
+            if let Some(name) = &n.export {
+                if self.exports.get(name) != Some(&i) {
+                    bad.push(format!(
+                        "node {id}: export field `{name}` not in the exports map"
+                    ));
+                }
+            }
+        }
+        for (name, n) in &self.imports {
+            match self.graph.node_weight(*n) {
+                Some(node) if node.import_name() == Some(name.as_str()) => {}
+                Some(_) => bad.push(format!("imports map: `{name}` maps to a non-import node")),
+                None => bad.push(format!("imports map: `{name}` maps to a dead node")),
+            }
+        }
+        for (name, n) in &self.exports {
+            if self.graph.node_weight(*n).is_none() {
+                bad.push(format!("exports map: `{name}` maps to a dead node"));
+            }
+        }
+        for n in self.defined.values() {
+            match self.graph.node_weight(*n) {
+                Some(node) if matches!(node.kind, NodeKind::Definition) => {}
+                Some(_) => bad.push("defined map: entry maps to a non-definition node".into()),
+                None => bad.push("defined map: entry maps to a dead node".into()),
+            }
+        }
+        for (key, id) in &self.package_map {
+            if !live_pkg(*id) {
+                bad.push(format!("package map: `{key}` maps to a dead package id"));
+            }
+        }
+        for f in &self.free_packages {
+            if self
+                .packages
+                .get(*f)
+                .map(|e| e.package.is_some())
+                .unwrap_or(true)
+            {
+                bad.push(format!("free list: slot {f} is not free"));
+            }
+        }
+        bad
+    }
+}
